@@ -314,6 +314,7 @@ func plans(id, tier string) (Plan, bool) {
 		// a registered value of more than 64 KiB that is also the query
 		jobs = append(jobs, Job{Pkg: pkgSC, Harness: "c14_sched", Instr: "v1", Params: fmt.Sprintf("scenario=17;values=1;valuebytes=66000;policy=delay;budget=%d", pick(1, 2)), Shards: pick(2, 8)})
 		jobs = append(jobs, Job{Pkg: pkgSC, Harness: "c14_sched", Instr: "v1", Params: "scenario=18;values=1;valuebytes=66000;policy=delay;budget=1", Shards: pick(2, 8)})
+		jobs = append(jobs, Job{Pkg: pkgSC, Harness: "c14_sched", Instr: "v1", Params: fmt.Sprintf("scenario=23;values=1;valuebytes=4600;reprobe=yes;policy=delay;budget=%d", pick(2, 3)), Shards: 16})
 		jobs = append(jobs, Job{Pkg: pkgSC, Harness: "c14_sched", Instr: "v1", Params: "scenario=21;values=1;valuebytes=140000;policy=delay;budget=1", Shards: pick(2, 8)})
 		jobs = append(jobs, Job{Pkg: pkgSC, Harness: "c14_sched", Instr: "v1", Params: fmt.Sprintf("scenario=22;values=1;valuebytes=140000;policy=delay;budget=%d", pick(1, 2)), Shards: pick(2, 8)})
 		// a 4.6 KB value added while a query runs
@@ -340,6 +341,9 @@ func plans(id, tier string) (Plan, bool) {
 	case "C16":
 		return Plan{Level: "exploration", Jobs: []Job{
 			{Pkg: pkgExtV1, Harness: "c16_corpus", Instr: "v1", Shards: 16},
+			{Pkg: pkgExtV1, Harness: "c16_corpus", Instr: "v1", Params: "t=0.9;variants=2", Shards: 4},
+			{Pkg: pkgExtV1, Harness: "c16_corpus", Instr: "v1", Params: "t=0.99;variants=2", Shards: 4},
+			{Pkg: pkgExtV1, Harness: "c16_corpus", Instr: "v1", Params: "t=0.5;variants=2", Shards: 4},
 			{Pkg: pkgExtV1, Harness: "c16_threshold", Instr: "v1", Shards: 16},
 		}}, true
 	case "C17":
@@ -348,6 +352,7 @@ func plans(id, tier string) (Plan, bool) {
 			{Pkg: pkgTok, Harness: "c17_tokens", Params: "alphabet=classes", Shards: pick(4, 16)},
 			{Pkg: pkgTok, Harness: "c17_longwords", Shards: pick(4, 12)},
 			{Pkg: pkgTok, Harness: "c17_runes", Shards: 8},
+			{Pkg: pkgTok, Harness: "c17_longtext", Shards: 8},
 			{Pkg: pkgSS, Harness: "c17_candidates", Shards: 16},
 			{Pkg: pkgSS, Harness: "c17_candidates", Params: "alphabet=ab", Shards: 16},
 			// other granularities (window sizes) than the default 3: steps of more than one token
